@@ -87,7 +87,8 @@ def random_array(mode, h, w, nprng, kind="mixed", negative=False, dirty=False):
     """Random content of ``mode`` with a mask pattern of the given ``kind``:
     'mixed' (a random 5-60 % of the pixels undefined), 'full' (none), 'allundef',
     'single' (one defined pixel), 'sparse' (~1 % defined), 'blocks' (undefined pixels come
-    in aligned 2x2/4x4 blocks and rows), 'faint' (RGBA only: alpha in 1..3).
+    in aligned 2x2/4x4 blocks and rows), 'faint' (RGBA: alpha in 1..3; integer data: isolated
+    values of magnitude <= 3, so that every 2x2 block mean truncates to zero).
     ``negative``: signed integer data may be negative.  ``dirty``: transparent RGBA pixels
     keep random colour values.  RGB has no undefined pixels, whatever ``kind``."""
     dt, ch = DTYPES[mode]
@@ -113,6 +114,14 @@ def random_array(mode, h, w, nprng, kind="mixed", negative=False, dirty=False):
         a[..., 3] = nprng.integers(1, 256, (h, w))
         if kind == "faint":
             a[..., 3] = nprng.integers(1, 4, (h, w))
+    if mode in INT_MODES and kind == "faint":
+        # |value| <= 3 on at most one pixel of every aligned 2x2 block: every block mean truncates to 0
+        a = (np.sign(a.astype(np.int64)) * nprng.integers(1, 4, shape)).astype(dt)
+        keep = np.zeros((h, w), bool)
+        keep[0::2, 0::2] = nprng.random(((h + 1) // 2, (w + 1) // 2)) < 0.05
+        keep[0, 0] = True
+        a[~keep] = 0
+        return a
     # which pixels become undefined
     if kind in ("full", "faint"):
         u = np.zeros((h, w), bool)
